@@ -30,10 +30,12 @@ const (
 	RKBufio8192 = 3
 	RKBufio64K  = 4
 	RKBufio16   = 5 // smaller than every library minimum: forces re-wrapping
-	NumRK       = 6
+	RKBufio32   = 6 // exactly the TIFF header search window
+	RKBufio24   = 7 // exactly the sniffing window
+	NumRK       = 8
 )
 
-var RKNames = []string{"raw", "readeronly", "bufio4096", "bufio8192", "bufio65536", "bufio16"}
+var RKNames = []string{"raw", "readeronly", "bufio4096", "bufio8192", "bufio65536", "bufio16", "bufio32", "bufio24"}
 
 // Env is the per-call environment chosen by the simulator.
 type Env struct {
@@ -101,6 +103,12 @@ func mkReader(env *Env, r *world.SimReader, res *Result) io.Reader {
 		return res.Br
 	case RKBufio16:
 		res.Br = bufio.NewReaderSize(r, 16)
+		return res.Br
+	case RKBufio32:
+		res.Br = bufio.NewReaderSize(r, 32)
+		return res.Br
+	case RKBufio24:
+		res.Br = bufio.NewReaderSize(r, 24)
 		return res.Br
 	}
 	return r
